@@ -1,7 +1,8 @@
 (* C18 — executable instantiation used by the correspondence check (no proofs). *)
-From Coq Require Import List Arith NArith Bool.
+From Coq Require Import List Arith ZArith NArith Bool.
 Import ListNotations.
-From Verif.C18 Require Import Model.
+From Verif.Base Require Import F64.
+From Verif.C18 Require Import Model HashModel.
 
 (* keys are SameValue classes: 0 = +0, 1 = -0 (normalised to 0); values are small integers *)
 Definition tsame (a b : N) : bool := N.eqb a b.
@@ -17,7 +18,40 @@ Notation ONext := (@ONext N N). Notation OSize := (@OSize N N).
 Inductive obs := RU | RV (v : option N) | RB (b : bool) | RN (n : nat)
                | REnt (k : option N) (v : option N) | REnd.
 
-Record tcase := mkCase { c_ops : list top; c_obs : list obs }.
+(* hash-agreement observation on the pair (i, j) of the value table of the case:
+   ho_raw  = a.SameAs(b) on the values as given,
+   ho_same = na.SameAs(nb), ho_heq = (na.hash(h) == nb.hash(h)) where na, nb are the keys as stored by
+             orderedMap.set (goja's own normalisation).
+   The harness writes one row per i, one code 4*raw + 2*same + heq per j. *)
+Record hobs := mkHO { ho_i : nat; ho_j : nat; ho_raw : bool; ho_same : bool; ho_heq : bool }.
+
+Definition decode_obs (i j code : nat) : hobs :=
+  mkHO i j (Nat.leb 4 code) (Nat.odd (Nat.div2 code)) (Nat.odd code).
+
+Fixpoint decode_row (i j : nat) (row : list nat) : list hobs :=
+  match row with [] => [] | c :: r => decode_obs i j c :: decode_row i (S j) r end.
+
+Fixpoint decode_rows (i : nat) (rows : list (list nat)) : list hobs :=
+  match rows with [] => [] | r :: rs => decode_row i 0 r ++ decode_rows (S i) rs end.
+
+(* how the harness writes a value (from VerifRepr and the exported content) *)
+Definition JUndef : jsval := VUndef.
+Definition JNull : jsval := VNull.
+Definition JBool (b : bool) : jsval := VBool b.
+Definition JInt (z : Z) : jsval := VNum (M5.NInt z).                   (* valueInt *)
+Definition JFlt (bits : Z) : jsval := VNum (M5.NFlt (of_bits bits)).   (* valueFloat, by Float64bits *)
+Definition JAsc (bs : list N) : jsval := VStr (M6.SAscii bs).          (* asciiString: bytes *)
+Definition JUni (us : list N) : jsval := VStr (M6.SUni us).            (* unicodeString: units after the marker *)
+Definition JImp (bs : list N) (scanned : bool) : jsval := VStr (M6.SImp bs scanned).   (* importedString: UTF-8 bytes *)
+Definition JSym (id : N) : jsval := VSym id.
+Definition JObj (id : N) (host : option N) : jsval := VObj id host.
+Definition JBig (z : Z) : jsval := VBig z.
+
+Inductive tcase :=
+| mkCase (c_ops : list top) (c_obs : list obs)
+(* h_vals: the SameValueZero class of each value (as the harness built it) and its representation as
+   reported by VerifRepr, as a [jsval] *)
+| mkHash (h_vals : list (N * jsval)) (h_obs : list (list nat)).
 
 Definition opt_match (o : option N) (x : N) : bool :=
   match o with None => true | Some y => N.eqb x y end.
@@ -41,11 +75,57 @@ Fixpoint all_match (os : list obs) (rs : list (@out N N)) : bool :=
   | _, _ => false
   end.
 
-Definition run_I (c : tcase) := snd (run (istep tsame tnorm thash) iinit (c_ops c)).
-Definition run_S (c : tcase) := snd (run (sstep tsame tnorm) sinit (c_ops c)).
+Definition run_I (ops : list top) := snd (run (istep tsame tnorm thash) iinit ops).
+Definition run_S (ops : list top) := snd (run (sstep tsame tnorm) sinit ops).
+
+(* ---- the hash model, instantiated: an injective stand-in for maphash and for addresses, kept away from the
+   64-bit words that number keys hash to, so that "model hashes equal" means "the hash inputs are equal" *)
+Definition two64N : N := 18446744073709551616%N.
+Definition enc_bytes (l : list N) : N := fold_left (fun acc b => (acc * 257 + (b + 1))%N) l 0%N.
+Definition t_mh (l : list N) : N := (two64N + 8 * enc_bytes l)%N.
+Definition t_ptr_sym (i : N) : N := (two64N + 8 * i + 1)%N.
+Definition t_ptr_obj (i : N) : N := (two64N + 8 * i + 2)%N.
+Definition t_hash : jsval -> N :=
+  goja_hash (two64N + 3) (two64N + 11) (two64N + 19) (two64N + 27) t_mh t_ptr_sym t_ptr_obj.
+
+(* numbers and strings handed out by the runtime must satisfy the representation invariant *)
+Definition repr_ok (v : jsval) : bool :=
+  match v with VNum _ | VStr _ => key_wf v | _ => true end.
+
+Record hexp := mkHX { x_cls : bool;    (* S on the classes of the harness *)
+                      x_spec : bool;   (* S on the denotations: svz_spec *)
+                      x_same : bool;   (* I: goja_same after goja_norm *)
+                      x_raw : bool;    (* I: goja_same on the values as given *)
+                      x_heq : bool;    (* I: the hash inputs coincide *)
+                      x_wf : bool }.
+
+Definition hexpect (vals : list (N * jsval)) (o : hobs) : option hexp :=
+  match nth_error vals (ho_i o), nth_error vals (ho_j o) with
+  | Some (ca, va), Some (cb, vb) =>
+      let na := goja_norm va in let nb := goja_norm vb in
+      Some (mkHX (svz tsame tnorm ca cb) (svz_spec va vb) (goja_same na nb) (goja_same va vb)
+                 (N.eqb (t_hash na) (t_hash nb)) (repr_ok va && repr_ok vb))
+  | _, _ => None
+  end.
+
+Definition hcheck (vals : list (N * jsval)) (o : hobs) : bool :=
+  match hexpect vals o with
+  | Some x =>
+      x_wf x
+      && Bool.eqb (ho_same o) (x_cls x)      (* observed SameValueZero = the oracle, on classes *)
+      && Bool.eqb (ho_same o) (x_spec x)     (* ... and on the values' denotations *)
+      && Bool.eqb (ho_same o) (x_same x)     (* ... and = the transcription *)
+      && Bool.eqb (ho_raw o) (x_raw x)
+      && implb (ho_same o) (ho_heq o)        (* hash_respects_svz, observed *)
+      && implb (x_heq x) (ho_heq o)          (* equal hash inputs give equal hashes *)
+  | None => false
+  end.
 
 Definition check_case (c : tcase) : bool :=
-  all_match (c_obs c) (run_S c) && all_match (c_obs c) (run_I c).
+  match c with
+  | mkCase ops os => all_match os (run_S ops) && all_match os (run_I ops)
+  | mkHash vals rows => match decode_rows 0 rows with [] => false | os => forallb (hcheck vals) os end
+  end.
 
 Fixpoint mismatch_from (i : N) (cs : list tcase) : list N :=
   match cs with
@@ -54,4 +134,10 @@ Fixpoint mismatch_from (i : N) (cs : list tcase) : list N :=
   end.
 Definition mismatch_ids := mismatch_from 0%N.
 
-Definition expected (c : tcase) := (run_S c, run_I c).
+(* for a hash case only the pairs that fail are printed *)
+Definition expected (c : tcase) :=
+  match c with
+  | mkCase ops _ => inl (run_S ops, run_I ops)
+  | mkHash vals rows =>
+      inr (map (fun o => (ho_i o, ho_j o, hexpect vals o)) (filter (fun o => negb (hcheck vals o)) (decode_rows 0 rows)))
+  end.
